@@ -63,7 +63,12 @@ def run_impl(case, sets=None, alpha=None):
                             'ndf': [int(x) for x in r.test.ndf],
                             'p': [bits(np.ma.filled(x, NAN)) for x in r.pvalue]}
                 obs = canon(res)
-                obs['reeval_same'] = canon(test.evaluate()) == obs and canon(res) == obs
+                import copy
+                import pickle
+                obs['reeval_same'] = (canon(test.evaluate()) == obs and canon(res) == obs
+                                      and canon(pickle.loads(pickle.dumps(res))) == obs
+                                      and canon(copy.deepcopy(test).evaluate()) == obs
+                                      and canon(pickle.loads(pickle.dumps(test)).evaluate()) == obs)
                 return obs
     except Exception as exc:  # noqa
         return {'raise': type(exc).__name__}
@@ -149,7 +154,7 @@ def oracle(ctx, case, obs):
                            key='malformed')
         return False
     if not obs.get('reeval_same', True):
-        ctx.oracle_failure('evaluating the same chi-square test twice gives different results' + tag, case,
+        ctx.oracle_failure('evaluating the same chi-square test twice, or a pickled / deep-copied test or result, gives different results' + tag, case,
                            key='reevaluation')
         return False
     alpha = case['alpha']
